@@ -36,49 +36,56 @@ def run_checks(r, checks):
         out.append((cid, {0: 'MISSED', 1: 'CAUGHT', 2: 'INCONCLUSIVE'}.get(p.returncode, '?'), keys[:3]))
     return out
 
-rows = []
-# seeded changes
+jobs = []
 for sd in sorted(glob.glob(os.path.join(root, 'seeded', 'C*-*'))):
     name = os.path.basename(sd)
     if only and not any(o in name for o in only):
         continue
-    meta = json.load(open(os.path.join(sd, 'meta.json')))
-    pid = meta['property']
-    d, r = scratch()
-    try:
-        p = subprocess.run('patch -s -p1 < %s' % os.path.join(sd, 'patch.diff'), shell=True, cwd=r, capture_output=True, text=True)
-        if p.returncode != 0:
-            rows.append(('seeded/' + name, 'PATCH DOES NOT APPLY', [])); continue
-        tp = tests_pass(r)
-        res = run_checks(r, [pid])
-        rows.append(('seeded/' + name, 'tests ' + ('pass' if tp else 'FAIL'), res))
-        meta['checks_latest'] = {c: {'verdict': v, 'keys': k} for c, v, k in res}
-        json.dump(meta, open(os.path.join(sd, 'meta.json'), 'w'), indent=1)
-    finally:
-        shutil.rmtree(d, ignore_errors=True)
-    print(rows[-1], flush=True)
-# one-line mutants
+    jobs.append(('seed', name, sd))
 for mf in sorted(glob.glob(os.path.join(root, 'mutants', '*.py'))):
     for m in runpy.run_path(mf)['MUTANTS']:
         name = os.path.basename(mf)[:-3] + ':' + m['name']
         if only and not any(o in name for o in only):
             continue
-        d, r = scratch()
-        try:
-            pth = os.path.join(r, m['file'])
-            s = open(pth).read()
-            if s.count(m['old']) != 1:
-                rows.append(('mutants/' + name, 'PATCH DOES NOT APPLY', [])); continue
-            open(pth, 'w').write(s.replace(m['old'], m['new']))
+        jobs.append(('mut', name, m))
+
+def do(job):
+    kind, name, x = job
+    d, r = scratch()
+    try:
+        if kind == 'seed':
+            meta = json.load(open(os.path.join(x, 'meta.json')))
+            pid = meta['property']
+            p = subprocess.run('patch -s -p1 < %s' % os.path.join(x, 'patch.diff'), shell=True, cwd=r, capture_output=True, text=True)
+            if p.returncode != 0:
+                return ('seeded/' + name, 'PATCH DOES NOT APPLY', [])
             tp = tests_pass(r)
-            rows.append(('mutants/' + name, 'tests ' + ('pass' if tp else 'FAIL'), run_checks(r, m['checks'])))
-        finally:
-            shutil.rmtree(d, ignore_errors=True)
-        print(rows[-1], flush=True)
+            res = run_checks(r, [pid])
+            meta['checks_latest'] = {c: {'verdict': v, 'keys': k} for c, v, k in res}
+            json.dump(meta, open(os.path.join(x, 'meta.json'), 'w'), indent=1)
+            return ('seeded/' + name, 'tests ' + ('pass' if tp else 'FAIL'), res)
+        pth = os.path.join(r, x['file'])
+        s = open(pth).read()
+        if s.count(x['old']) != 1:
+            return ('mutants/' + name, 'PATCH DOES NOT APPLY', [])
+        open(pth, 'w').write(s.replace(x['old'], x['new']))
+        tp = tests_pass(r)
+        return ('mutants/' + name, 'tests ' + ('pass' if tp else 'FAIL'), run_checks(r, x['checks']))
+    finally:
+        shutil.rmtree(d, ignore_errors=True)
+
+rows = []
+with ThreadPoolExecutor(max_workers=int(os.environ.get('CORPUS_JOBS', '4'))) as ex:
+    for row in ex.map(do, jobs):
+        rows.append(row)
+        print(row, flush=True)
 
 if not only:
     with open(os.path.join(root, 'seeded', 'RESULTS.md'), 'w') as f:
         f.write('# Validation corpus against the current checks (%s tier, %s)\n\n' % (tier, time.strftime('%Y-%m-%d %H:%M')))
+        f.write('Written by tools/run_corpus.py.  seeded/<ID>-n: changes by independent sub-agents (rounds 1-3);\n'
+                'mutants/<file>:<name>: one-line slips.  Each change is applied to a scratch copy of /repo; column 2 is the\n'
+                'pinned unit-test suite there, column 3 the verdict of the quick check(s).\n\n')
         f.write('| change | pinned unit tests | check verdicts (first keys) |\n|---|---|---|\n')
         for name, t, res in rows:
             f.write('| %s | %s | %s |\n' % (name, t, '; '.join('%s %s %s' % (c, v, ', '.join(k)) for c, v, k in res)))
